@@ -183,6 +183,27 @@ def _random_job(k):
     w12, w21 = float(np.sum(loads * d2)), float(np.sum(l2 * disp))
     if abs(w12 - w21) > 1e-8 * max(abs(w12), abs(w21), float(np.sum(np.abs(loads * d2)))):
         bad.append("frame:maxwell_betti")
+    # loads of very different magnitudes in ONE load vector (all far above the 1e-6 N zeroing threshold): a light load must not
+    # be lost next to a heavy one - superposition u(heavy + light) - u(heavy) = u(light), equilibrium of the lightly loaded rows
+    heavy = np.zeros((ny, 6))
+    light = np.zeros((ny, 6))
+    ih, il = (0, ny - 2) if sym else (0, ny - 1)
+    if il == clamp:
+        il = max(il - 1, 0)
+    if ih != il and ih != clamp:
+        heavy[ih, :3] = rng.normal(0, 1.0, 3) * 10.0 ** rng.uniform(6.5, 8.0)
+        light[il, :3] = rng.normal(0, 1.0, 3) * 10.0 ** rng.uniform(1.0, 2.0)
+        res3 = []
+        for lv in (heavy + light, heavy, light):
+            prob.set_val("loads", lv)
+            prob.run_model()
+            res3.append(np.array(prob.get_val("disp")))
+        dl = res3[0] - res3[1]
+        sl = float(np.max(np.abs(res3[2])))
+        # cancellation: the difference of two responses of size |u_heavy| carries round-off ~1e-16 |u_heavy| (x conditioning)
+        noise = 1e-9 * float(np.max(np.abs(res3[1])))
+        if sl > 50 * noise and float(np.max(np.abs(dl - res3[2]))) > 1e-6 * sl + noise:
+            bad.append("frame:light_load_lost_next_to_heavy_load")
     # tube model: rotating structure and loads together rotates the response
     if not wingbox:
         ang = rng.uniform(-0.6, 0.6, 3)
